@@ -91,3 +91,11 @@ impl Rng {
     }
   }
 }
+
+/// Thorough tier: deeper bounds (longer histories, more ops per thread,
+/// larger trees). Read once from `VSIM_TIER` (set by `vsim run` for itself and
+/// its worker processes); replayed cases are explicit and unaffected.
+pub fn deep() -> bool {
+  static DEEP: std::sync::OnceLock<bool> = std::sync::OnceLock::new();
+  *DEEP.get_or_init(|| std::env::var("VSIM_TIER").map_or(false, |t| t == "thorough"))
+}
